@@ -137,6 +137,10 @@ HARNESSES = [
         note="OutputBufferOxide::put_bits replaced by a small-buffer model (checked equal to the real put_bits by k_put_bits_model_equiv, and the real one proved in Verus V-def-bits); CallbackOxide::flush_output by a recording model (real one: K-flushout); <[u16]>::fill by its std contract model; in k_flush_block_finish_static compress_block by its empty-body contract model (ASSUMED: the harness for the real static-table build, k_compress_block_static_empty, did not finish in 50 min and is not registered)")
       for n in ("k_flush_block_markers", "k_flush_block_finish_static")],
     H("k_put_bits_model_equiv", "K-flushmark", ["C02", "C10", "C12"], fns=["OutputBufferOxide::put_bits"], cost=20),
+    # ---- K-fasttail ----
+    H("k_fast_tail", "K-fasttail", ["C01", "C02", "C12"], fns=["compress_fast (tail path: fewer than 4 bytes with a flush requested)"], cost=70, timeout=900,
+      strength="B(1..3 bytes of work split between prior lookahead and new input in 4 concrete ways, window position 1000; complete in data, flags, window bits, flush mode, dictionary size)",
+      note="flush_block replaced by a no-op model (not reached: the token buffer is far from full)"),
     # ---- K-huff ----
     H("k_enforce_max_code_size_kraft", "K-huff", ["C10"], fns=["HuffmanOxide::enforce_max_code_size"], cost=50, timeout=900,
       strength="B(<= 9 codes, tree depths <= 9, limit 7; complete over every depth histogram of a full binary tree in that range)"),
